@@ -116,6 +116,8 @@ def _bellman(exe, work, args, tag, R):
     if n == 0:
         return 0, 0
     kids = sum(len(json.loads(l).get("kids", [])) for l in open(tp))
+    R.coverage["minimax_recursion_roots_also_through_find_best_move"] = R.coverage.get("minimax_recursion_roots_also_through_find_best_move", 0) + \
+        sum(1 for l in open(tp) if '"pub"' in l)
     matched, results, rej = vlib.validate_trace("BellmanTrace", "BellmanTrace.cfg", tp, lambda e: True, timeout=7200, max_rejections=4)
     for r in results:
         R.add_tlc(r)
